@@ -71,14 +71,14 @@ func (l *Lines) Reload(blockIdx int) {
 	copy(lines, newBlock)
 }
 
-func (l *Lines) reloadRange(from int, to int) {
-	if from > to {
-		from, to = to, from
-	}
+// reloadAll recreates all lines including positions of blocks. Unlike Reload,
+// this method has to be used if number of lines of any block position changes.
+func (l *Lines) reloadAll() {
+	l.UnmarkAll()
 
-	for i := from; i <= to; i++ {
-		l.Reload(i)
-	}
+	reloaded := newLines(l.code)
+	l.lines = reloaded.lines
+	l.blockStarts = reloaded.blockStarts
 }
 
 func (l *Lines) Move(fromLine int, toLine int) error {
@@ -105,7 +105,9 @@ func (l *Lines) Move(fromLine int, toLine int) error {
 			return fmt.Errorf("block move failed: %w", err)
 		}
 
-		l.reloadRange(fromBlock, toBlock)
+		// Blocks moved can differ in number of instructions, so lines
+		// where blocks start change as well.
+		l.reloadAll()
 	} else {
 		if fromBlock != toBlock {
 			return fmt.Errorf("instructions cannot be moved among blocks")
